@@ -152,7 +152,9 @@ def second_root():
             os.makedirs(shared, exist_ok=True)
             ROOT2 = shared
         else:
-            ROOT2 = tempfile.mkdtemp(prefix='c15_root2_')
+            ROOT2 = tempfile.mkdtemp(prefix='c15_root2_')      # outside run() (a replay): removed when the process ends
+            import atexit
+            atexit.register(shutil.rmtree, ROOT2, True)
         with open(os.path.join(ROOT2, 'm1.py'), 'w') as f:
             f.write('\n\nonly_in_root2 = 1\n\n\ndef fn1():\n    return 2\n')
     return ROOT2
